@@ -3,6 +3,7 @@ import json
 
 FULL = {"Signers": '{"s1", "s2"}', "Heights": "{1, 2}", "Rounds": "{0, 1}", "Nids": "{0, 1, 2}",
         "Bodies": '{"x", "y", "nil"}', "Auxes": "{1, 2}"}
+# Us = unsigned part of a precommit (BTP vote bases / proof parts): 0 none, 1, 2 two different lists
 # one slot family of the log: the log is partitioned by (kind, signer, height, round)
 SLOT = {"Signers": '{"s1"}', "Heights": "{1}", "Rounds": "{0}", "Nids": "{0, 1, 2}",
         "Bodies": '{"x", "y", "nil"}', "Auxes": "{1, 2}"}
@@ -14,13 +15,16 @@ SMALL = {"Signers": '{"s1", "s2"}', "Heights": "{1}", "Rounds": "{0, 1}", "Nids"
 
 def run(ctx):
     # 1. exhaustive: (a) every ordered pair of the full alphabet through Check and every single Receive,
-    #    (b) every sequence of <= 3/4 Receives over a reduced alphabet (1 signer, 1 height, 2 rounds: 60 messages)
+    #    (b) every sequence of <= 3/4 Receives over a reduced alphabet (quick: 1 signer, 1 height, 2 rounds, 2 bodies, u in {0,1}: 84 messages; thorough: 1 round, 2 bodies, u in {0,1,2}: 54 messages)
+    us = ctx.pick("{0, 1}", "{0, 1, 2}")
     if not ctx.replay:
-      r1 = ctx.model_check("cert", "MC_DoubleSign", "MC_DoubleSign_pairs.cfg", coverage=True, timeout=600,
+      # quick: one height (264 messages, 69696 pairs); thorough: the full alphabet with three unsigned variants
+      r1 = ctx.model_check("cert", "MC_DoubleSign", "MC_DoubleSign_pairs.cfg",
+                         constants=dict(FULL, Heights=ctx.pick("{1}", "{1, 2}"), Us=us, MaxOps=1), coverage=True, timeout=900,
                          label="all ordered pairs")
       ctx.check_coverage(r1, ["Receive", "Check"])
       r2 = ctx.model_check("cert", "MC_DoubleSign", "MC_DoubleSign.cfg",
-                           constants=dict(SLOT2, MaxOps=ctx.pick(3, 4)), coverage=True, timeout=1500,
+                           constants=dict(ctx.pick(SLOT2, dict(SLOT, Bodies='{"x", "nil"}')), Us=us, MaxOps=ctx.pick(3, 4)), coverage=True, timeout=1500,
                            label="log sequences")
       ctx.check_coverage(r2, ["Receive"], allow_zero=("Check",))
       ctx.exhaustive = True
@@ -30,8 +34,9 @@ def run(ctx):
         items.append(dict(t="beh", steps=d["behaviour"]))
         rule_n = (0, 0, 0)
     else:
-        # 2. the decision table of the predicate over the full alphabet (384 messages, 147456 ordered pairs)
-        rt = ctx.tlc("cert", "Gen_DoubleSign", "Gen_DoubleSign.cfg", constants=dict(FULL, Mode='"table"', MaxOps=0, Depth=0),
+        # 2. the decision table of the predicate over the full alphabet (528 messages, 278784 ordered pairs with
+        #    u in {0,1}; 672 / 451584 with u in {0,1,2})
+        rt = ctx.tlc("cert", "Gen_DoubleSign", "Gen_DoubleSign.cfg", constants=dict(FULL, Us=us, Mode='"table"', MaxOps=0, Depth=0),
                      count=False, timeout=600, label="table")
         from vlib import parse_tagged
         alph = parse_tagged(rt.printed, "A")
@@ -44,12 +49,12 @@ def run(ctx):
         # 3. log behaviours: all Receive sequences of depth 2/3 within one slot family + random walks over everything
         d = ctx.pick(2, 3)
         bs = ctx.behaviours("cert", "Gen_DoubleSign", "Gen_DoubleSign.cfg",
-                            constants=dict(SLOT if ctx.quick() else dict(SLOT, Bodies='{"x", "nil"}'),
+                            constants=dict(SLOT if ctx.quick() else dict(SLOT, Bodies='{"x", "nil"}'), Us="{0, 1}",
                                            Mode='"log"', MaxOps=d, Depth=d), timeout=900)
-        wl = ctx.pick(10, 16)
+        wl = ctx.pick(8, 16)
         walks = ctx.behaviours("cert", "Gen_DoubleSign", "Gen_DoubleSign.cfg",
-                               constants=dict(SMALL, Mode='"log"', MaxOps=wl, Depth=wl),
-                               simulate="num=%d" % ctx.pick(500, 4000), depth=wl + 2, seed=ctx.seed, timeout=900)
+                               constants=dict(SMALL, Us=us, Mode='"log"', MaxOps=wl, Depth=wl),
+                               simulate="num=%d" % ctx.pick(300, 4000), depth=wl + 2, seed=ctx.seed, timeout=900)
         items += [dict(t="beh", steps=b) for b in bs + walks]
         for b in (walks[:1] + bs[-1:]):
             ctx.sample([dict(op=s["op"], m=s["m"], ev=s["ev"]) for s in b][:6])
@@ -62,8 +67,9 @@ def run(ctx):
     recs = ctx.go_replay("doublesign", "TestReplay", inp, timeout=900)
     ctx.absorb(recs)
     return ctx.finish(
-        rule="(a) one case per message m of the 384-message alphabet (3 kinds x 2 signers x 2 heights x 2 rounds x 3 "
-             "network ids x 3 bodies x 2 timestamps/POL rounds): IsConflictWith(m, m2) for every m2 of the alphabet "
+        rule="(a) one case per message m of the alphabet (3 kinds x 2 signers x 2 heights x 2 rounds x 3 "
+             "network ids x 3 bodies x 2 timestamps/POL rounds, precommits additionally x 2/3 unsigned BTP parts re-encoded "
+             "under the same signature): IsConflictWith(m, m2) for every m2 of the alphabet "
              "(%d rows = all ordered pairs, verdict predicted by TLC), non-trivial if some partner conflicts; "
              "(b) %d BFS + %d random Receive sequences on the double-sign log, distinct by message sequence, "
              "non-trivial if evidence is reported" % rule_n,
